@@ -158,7 +158,7 @@ def run(ctx):
 				sub({'kind': 'seqfiles', 'pos': names, 'lines': None, 'fmt': 'csv', 'g': []}, 'seqfiles-random')
 			else:
 				sub({'kind': 'seqfiles', 'pos': [], 'lines': names + ([''] if rng.random() < 0.3 else []), 'fmt': 'csv', 'g': []}, 'seqfiles-random')
-		for j in range(ctx.q(45, 600)):
+		for j in range(ctx.q(110, 600)):
 			if not ctx.time_left(0.85):
 				break
 			k = rng.choice([1, 2, 3, 5, min(8, n)])
@@ -168,7 +168,7 @@ def run(ctx):
 			sub({'kind': 'cli', 'g': g, 'fmt': fmt, 'chan': chan, 'alt': [rng.random() < 0.4 for _ in g], 'progress': rng.random() < 0.4,
 			     'cores': rng.choice([None, None, 1, 2, 4]) if chan != 'sigs' else rng.choice([None, 2]), 'blank': rng.random() < 0.3,
 			     'decoy_cwd': rng.random() < 0.5}, 'cli')
-		for j in range(ctx.q(20, 300)):
+		for j in range(ctx.q(40, 300)):
 			if not ctx.time_left(0.95):
 				break
 			g = rng.sample(range(n), rng.randint(1, min(6, n)))
